@@ -59,6 +59,187 @@ theorem released_at_quiescence (b : Bool) (evs : List Ev) (s : St) (h : run (ini
   unfold St.quiescent at hq
   rcases hi.rel with h1 | h1 <;> omega
 
+/-! ## 2. Liveness of `close().await` -/
+
+/-- An explicit close is not early and not late: a poll of the waiting closer returns `Ready(Some fd)`
+exactly when the strong count is 1 (every other handle and operation has let go). Both builds. -/
+theorem poll_ready_iff_unique (b : Bool) (evs : List Ev) (s s' : St) (c : Nat)
+    (_h : run (init b) evs = some s) (hc : s.parked c) (hp : step s (.poll c) = some s') :
+    s'.actors[c]? = some (.closer .doneSome) ↔ s.count = 1 := by
+  unfold St.parked at hc
+  simp only [step, stepPoll, hc] at hp
+  cases hp
+  unfold pollBody
+  by_cases h1 : s.count = 1
+  · simp [clearWoken, h1]
+    exact getElem?_set_self' _ _ _ _ hc
+  · simp [clearWoken, h1]
+    rw [getElem?_set_self' _ _ _ _ hc]
+    simp
+
+/-- Bounded progress, single-threaded build (whole drops, whole polls), every interleaving: when the
+closer is parked and the last other holder (a handle, or an operation that completes) performs its
+drop, the closer's task is woken by that very step, and its next poll returns `Ready(Some fd)`. -/
+theorem last_drop_wakes_closer (b : Bool) (evs : List Ev) (s : St)
+    (hev : ∀ e ∈ evs, e.unsync = true) (h : run (init b) evs = some s) (c x : Nat)
+    (hc : s.parked c) (h2 : s.count = 2)
+    (hx : s.actors[x]? = some (.handle .live) ∨ s.actors[x]? = some (.op .live)) :
+    ∃ s1 s2, step s (.drop x) = some s1 ∧ c ∈ s1.woken ∧ s1.count = 1 ∧ s1.parked c ∧
+      step s1 (.poll c) = some s2 ∧ s2.actors[c]? = some (.closer .doneSome) ∧
+      s2.released = 1 ∧ s2.delivered = 1 := by
+  obtain ⟨hi, hu⟩ := uinv_run (inv_init b) (uinv_init b) hev h
+  have hw2 := hu.w2 c hc
+  have hwaits := hu.w3 c hw2.1
+  have hxc : x ≠ c := by
+    intro hxc
+    subst hxc
+    unfold St.parked at hc
+    rcases hx with hx | hx <;> simp [hx] at hc
+  have hrel : s.released = 0 := by rcases hi.rel with h3 | h3 <;> omega
+  have hdel : s.delivered = 0 := by have := hi.del; omega
+  have hstep : step s (.drop x) = some (decRef (setRole (dropTest s) x .gone)) := by
+    rcases hx with hx | hx <;> simp [step, stepDrop, hx]
+  refine ⟨decRef (setRole (dropTest s) x .gone),
+    pollBody (clearWoken (decRef (setRole (dropTest s) x .gone)) c) c, hstep, ?_, ?_, ?_, ?_⟩
+  · -- woken
+    simp
+    unfold dropTest wake
+    simp [h2, hwaits]
+    rcases hw2.2 with h3 | h3
+    · simp [h3]
+    · split <;> simp [h3]
+  · simp [decRef_count, h2]
+  · unfold St.parked at hc ⊢
+    simp
+    rw [getElem?_set_ne' _ _ _ _ hxc]
+    exact hc
+  · have hpk : (decRef (setRole (dropTest s) x .gone)).actors[c]? = some (.closer .parked) := by
+      simp
+      rw [getElem?_set_ne' _ _ _ _ hxc]
+      exact hc
+    have hcnt : (decRef (setRole (dropTest s) x .gone)).count = 1 := by simp [decRef_count, h2]
+    have hrel' : (decRef (setRole (dropTest s) x .gone)).released = 0 := by
+      unfold decRef
+      simp [h2, hrel]
+    have hdel' : (decRef (setRole (dropTest s) x .gone)).delivered = 0 := by
+      unfold decRef
+      simp [h2, hdel]
+    refine ⟨by simp only [step, stepPoll, hpk], ?_, ?_, ?_⟩
+    · unfold pollBody
+      simp only [clearWoken, hcnt, if_true]
+      exact getElem?_set_self' _ _ _ _ hpk
+    · unfold pollBody
+      simp only [clearWoken, hcnt, if_true]
+      simp [deliver, hrel']
+    · unfold pollBody
+      simp only [clearWoken, hcnt, if_true]
+      simp [deliver, hdel']
+
+/-- Single-threaded build, every interleaving: no reachable state has the closer parked as the sole
+owner without a pending wake-up — unless a reference was released by one of the two paths that skip
+`Drop for SharedFd` (`rawDecs`, see `rawDecs_only_by_raw_paths`; defect F8b). -/
+theorem no_parked_forever_unsync (b : Bool) (evs : List Ev) (s : St)
+    (hev : ∀ e ∈ evs, e.unsync = true) (h : run (init b) evs = some s) (c : Nat)
+    (hc : s.parked c) (h1 : s.count = 1) (hraw : s.rawDecs = 0) : c ∈ s.woken := by
+  obtain ⟨_, hu⟩ := uinv_run (inv_init b) (uinv_init b) hev h
+  rcases hu.j c hc with h2 | h2 | h2
+  · omega
+  · exact h2
+  · omega
+
+/-- ... and such a woken closer completes at its next poll. -/
+theorem sole_owner_poll_completes (b : Bool) (evs : List Ev) (s : St) (h : run (init b) evs = some s)
+    (c : Nat) (hc : s.parked c) (h1 : s.count = 1) :
+    ∃ s', step s (.poll c) = some s' ∧ s'.actors[c]? = some (.closer .doneSome) ∧ s'.released = 1 := by
+  have hi := inv_run (inv_init b) h
+  have hrel : s.released = 0 := by rcases hi.rel with h3 | h3 <;> omega
+  unfold St.parked at hc
+  refine ⟨pollBody (clearWoken s c) c, by simp only [step, stepPoll, hc], ?_, ?_⟩
+  · unfold pollBody
+    simp only [clearWoken, h1, if_true]
+    exact getElem?_set_self' _ _ _ _ hc
+  · unfold pollBody
+    simp [clearWoken, h1, deliver, hrel]
+
+/-- The ghost counter `rawDecs` moves only on the two paths of fd.rs that drop the raw `Shared`:
+a first poll that finds `waits` already set (`else { None }`), and dropping a `take()` future that
+still holds its reference. -/
+theorem rawDecs_only_by_raw_paths (s s' : St) (e : Ev) (h : step s e = some s') :
+    s'.rawDecs = s.rawDecs ∨
+    (s'.rawDecs = s.rawDecs + 1 ∧
+      ((∃ c, e = .poll c ∧ s.waits = true) ∨ (∃ c, e = .pNone c) ∨ (∃ c, e = .dropFut c))) := by
+  cases e <;>
+    simp only [step, stepClone, stepOpStart, stepDrop, stepDropCheck, stepDropDec, stepTryUnwrap, stepTake,
+      stepClose, stepPoll, stepPSwap, stepMicro, stepDropFut] at h <;>
+    (repeat' split at h) <;>
+    (try cases h) <;>
+    (try subst_vars) <;>
+    (try simp only [firstPoll, pollBody, loseNone, swapWaits, tryUnwrap1, tryUnwrap2, register, beginPoll,
+      clearWoken]) <;>
+    (first
+      | (left; simp; done)
+      | (left; rfl)
+      | (left; split <;> simp; done)
+      | (right; simp; done)
+      | (by_cases hw : s.waits = true <;> by_cases h1 : s.count = 1 <;> simp [hw, h1]; done)
+      | trace_state)
+
+/-! ## 3. Descriptors produced by operations (accept / open / socket / pipe / multishot accept) -/
+
+section Produced
+open Compio.Produced
+
+/-- Every descriptor the kernel created for the operation is, at every moment and for every
+interleaving of polls / completions / multishot deliveries / drops of the future, in exactly one place:
+taken by the caller, closed, or still owned by the op struct. No descriptor is in two places, none is
+closed twice, none taken twice. Guard `hk`: the io_uring driver does not take its blocking fallback for
+this operation (the kernel supports the opcode) — see `Cex.C06.iour_blocking_fallback_counterexample`. -/
+theorem produced_exactly_one_owner (evs : List Produced.Ev) (s : Produced.St)
+    (hk : ∀ e ∈ evs, e ≠ .completeFallback) (h : Produced.run Produced.init evs = some s) :
+    (s.taken ++ s.closed ++ s.held).Nodup ∧
+      ∀ n, n < s.next ↔ (n ∈ s.taken ∨ n ∈ s.closed ∨ n ∈ s.held) := by
+  have hp := (pinv_run pinv_init hk h).perm
+  unfold Produced.St.P Produced.St.all at hp
+  refine ⟨hp.nodup_iff.mpr List.nodup_range, fun n => ?_⟩
+  rw [← List.mem_range, ← hp.mem_iff]
+  simp [or_assoc]
+
+/-- Once the operation is finished for everybody (the driver has let go of it and the future has
+returned `Ready` or has been dropped — cancelled before, around or after the completion), every
+produced descriptor has been taken XOR closed: delivered or closed, never leaked, never both. -/
+theorem produced_taken_xor_closed (evs : List Produced.Ev) (s : Produced.St)
+    (hk : ∀ e ∈ evs, e ≠ .completeFallback) (h : Produced.run Produced.init evs = some s)
+    (hf : s.finished) (n : Nat) (hn : n < s.next) :
+    (n ∈ s.taken ∧ n ∉ s.closed) ∨ (n ∈ s.closed ∧ n ∉ s.taken) := by
+  have hi := pinv_run pinv_init hk h
+  have hheld : s.held = [] := by
+    rcases hf.2 with h1 | h1
+    · exact (hi.d h1).1
+    · exact hi.e h1 hf.1
+  obtain ⟨hnd, hmem⟩ := produced_exactly_one_owner evs s hk h
+  rw [hheld, List.append_nil] at hnd
+  have hdis := (List.nodup_append.mp hnd).2.2
+  have := (hmem n).mp hn
+  rw [hheld] at this
+  rcases this with h1 | h1 | h1
+  · exact Or.inl ⟨h1, fun h2 => hdis n h1 n h2 rfl⟩
+  · exact Or.inr ⟨h1, fun h2 => hdis n h2 n h1 rfl⟩
+  · simp at h1
+
+example : ∃ s, Produced.run Produced.init [.poll, .dropFut, .complete true] = some s ∧
+    s.finished ∧ s.closed = [0] ∧ s.taken = [] := by
+  refine ⟨_, rfl, ?_⟩
+  unfold Produced.St.finished
+  decide
+
+example : ∃ s, Produced.run Produced.init [.poll, .shot, .shot, .popShot, .dropFut, .shot, .complete false] = some s ∧
+    s.finished ∧ s.taken = [0] ∧ s.closed = [1, 2] := by
+  refine ⟨_, rfl, ?_⟩
+  unfold Produced.St.finished
+  decide
+
+end Produced
+
 /-! non-vacuity -/
 
 example : ∃ s, run (init false) [.clone 0, .opStart 0, .take 0, .poll 0, .drop 1, .drop 2, .poll 0] = some s ∧
